@@ -369,6 +369,22 @@ namespace hv
                 put(s.dst, wire<VAllValid2>(w, {get(a.at(0)).ref, get(a.at(1)).ref}, uid));
                 return;
             }
+            if (s.op == "pairall" || s.op == "pairany")
+            {
+                // pairall <trig> <a> [<b>]: without <b> the bundle is wired with the partial named initializer
+                const bool all = s.op == "pairall";
+                if (a.size() >= 3)
+                {
+                    if (all) put(s.dst, wire<VPairAll>(w, pi(a.at(0)), {{"a", get(a.at(1)).ref}, {"b", get(a.at(2)).ref}}, uid));
+                    else put(s.dst, wire<VPairAny>(w, pi(a.at(0)), {{"a", get(a.at(1)).ref}, {"b", get(a.at(2)).ref}}, uid));
+                }
+                else
+                {
+                    if (all) put(s.dst, wire<VPairAll>(w, pi(a.at(0)), {{"a", get(a.at(1)).ref}}, uid));
+                    else put(s.dst, wire<VPairAny>(w, pi(a.at(0)), {{"a", get(a.at(1)).ref}}, uid));
+                }
+                return;
+            }
             if (s.op == "list2")
             {
                 put(s.dst, wire<VList2>(w, {get(a.at(0)).ref, get(a.at(1)).ref}, uid));
